@@ -9,7 +9,8 @@ PROPERTY = 'C19'
 RULE = ('random pairs of alignment sets (0-7 alignments each over 5 query ids x 2 reference ids, so keys repeat inside '
         'a set; pair lists of 0/1/3/8/20 pairs with duplicated query labels on 15 % of steps; second set either '
         'independent or a thinned copy of the first), both values of combineMultipleQuerySources, given to the real '
-        'AlignmentComparer.compare(A,B), compare(B,A) and compare(A,A); plus pairs of real XMAP files (COMA output vs the '
+        'AlignmentComparer.compare(A,B), compare(B,A) and compare(A,A) - ONE comparer object per combine mode is reused for all '
+        'cases of a shard (as a batch tool would), and a list is also compared, shortened in place, restored and compared again; plus pairs of real XMAP files (COMA output vs the '
         'bundled RefAligner XMAP of data/NA12878_BSPQI). Oracle: rows <-> distinct keys one to one; overlapping + '
         'nonOverlapping + firstOnly + secondOnly = |keys(A) u keys(B)|; only-counts = set differences; identity and '
         'coverages (and averages) in [0,1]; self comparison all BOTH with identity 1 / coverage 1 / no exclusive pairs '
@@ -50,9 +51,12 @@ def rset(rng):
     return out
 
 
+COMPARERS = {}
+
+
 def judge(c, sh, A=None, B=None):
     from src.diagnostic.alignment_comparer import AlignmentComparer, AlignmentRowComparer, AlignmentRowComparisonResultType as T
-    comp = AlignmentComparer(AlignmentRowComparer(c['combine']))
+    comp = COMPARERS.setdefault(c['combine'], AlignmentComparer(AlignmentRowComparer(c['combine'])))   # reused across cases
     if A is None:
         A = [mk(*x) for x in c['A']]
         B = [mk(*x) for x in c['B']]
@@ -114,6 +118,17 @@ def judge(c, sh, A=None, B=None):
                 (r.queryId, r.referenceId), r.identity, r.alignment1Coverage, r.alignment2Coverage, r.alignment1ExclusivePairs[:3], r.alignment2ExclusivePairs[:3], r.alignment1.alignedPairs[:6]))
     if len(self_.rows) != len(ka):
         v('self-comparison-row-count', '%d rows for %d keys' % (len(self_.rows), len(ka)))
+    # the same list object modified in place between two calls must be compared as it is now
+    if A and 'A' in c:
+        A2 = list(A)
+        dropped = A2.pop()
+        r1 = comp.compare(A2, B)
+        A2.append(dropped)
+        r2 = comp.compare(A2, B)
+        if (r2.overlapping, r2.nonOverlapping, r2.firstOnly, r2.secondOnly) != (res.overlapping, res.nonOverlapping, res.firstOnly, res.secondOnly):
+            v('result-depends-on-earlier-calls', 'compare(A,B) after the same list object was compared in a shorter state gives %s, a fresh comparison %s' % (
+                (r2.overlapping, r2.nonOverlapping, r2.firstOnly, r2.secondOnly), (res.overlapping, res.nonOverlapping, res.firstOnly, res.secondOnly)))
+        sh.count('in-place-modification-cases')
     if len(sh.samples) < 1 and len(ka & kb) >= 2:
         sh.sample({'A': c.get('A'), 'B': c.get('B'), 'combine': c['combine'],
                    'result': {'overlapping': res.overlapping, 'nonOverlapping': res.nonOverlapping, 'firstOnly': res.firstOnly, 'secondOnly': res.secondOnly,
